@@ -49,7 +49,7 @@ impl Property for C08 {
                 own: 0,
                 chain_len: vec![3, 2],
                 fin: vec![Fin::Fast, Fin::Both, Fin::Fast, Fin::No, Fin::Fast],
-                extras: vec![],
+                extras: vec![], ghosts: vec![],
                 seed: 3,
                 spread: 1000,
                 ops: (0..60u32).map(|k| match k % 4 { 0 => WOp::Link((k * 997) as u16), _ => WOp::Cert(((k * 7919 + 31) % 65536) as u16) }).collect(),
@@ -61,7 +61,7 @@ impl Property for C08 {
                 own: 0,
                 chain_len: vec![2, 0, 1],
                 fin: vec![Fin::No, Fin::No, Fin::Fast],
-                extras: vec![ExtraSpec { slot: 20000, parent: 0, notar: true }, ExtraSpec { slot: 40000, parent: 0, notar: true }, ExtraSpec { slot: 60000, parent: 0, notar: true }],
+                extras: vec![ExtraSpec { slot: 20000, parent: 0, notar: true }, ExtraSpec { slot: 40000, parent: 0, notar: true }, ExtraSpec { slot: 60000, parent: 0, notar: true }], ghosts: vec![],
                 seed: 5,
                 spread: 1000,
                 ops: vec![
